@@ -291,6 +291,12 @@ static void inflate_part(void)
 	gs_family_matches(0, all_mine, &idx, collect_cb, NULL);
 	collect_every = v_thorough ? 150 : 400;
 	gs_family_zlib(0, all_mine, &idx, collect_cb, NULL);
+	/* streams made by ISA-L itself (level 0 ones carry its default dynamic header, which the decoder recognises by a
+	 * byte-wise comparison shortcut): short ones, so that layer 1 tries EVERY split point inside that header */
+	collect_every = 0;
+	collect_min_s = 100;
+	collect_max_s = 590;
+	gs_family_isal(0, all_mine, &idx, collect_cb, NULL);
 	v_count("inflate_streams_short", nshort);
 	v_count("inflate_streams_long", nOS - nshort);
 	uint64_t unit = 0;
